@@ -9,6 +9,66 @@ namespace MdsVerif.Proofs.Stack
 open MdsVerif.Model.Stack MdsVerif.Spec
 variable {α : Type} [Inhabited α]
 
+/-! ## the regenerated facts (`Gen.Stack`) in the form the proofs use
+
+`Model.Stack` takes its tests and index expressions from `Gen.Stack` (regenerated from stack.go on every run).
+The lemmas of this section restate the model functions with the pinned expressions written out; everything
+below unfolds them only through these. -/
+section facts
+theorem top_def (s : S α) : top s = if s.length = 0 then default else s.getD (s.length - 1) default := by
+  unfold top Gen.Stack.topEmpty Gen.Stack.topIdx
+  have e : ((s.length : Int) - 1).toNat = s.length - 1 := by omega
+  by_cases h : s.length = 0
+  · have h' : (s.length : Int) = 0 := by omega
+    simp [h]
+  · have h' : ¬ (s.length : Int) = 0 := by omega
+    simp only [h, h', decide_false, if_false, e]
+    simp
+
+theorem peek_def (s : S α) (n : Int) :
+    peek s n =
+      if n ≥ (s.length : Int) then .opt none
+      else if n < 0 then .panicIndex
+      else .opt (some (s.getD (s.length - 1 - n.toNat) default)) := by
+  unfold peek Gen.Stack.peekOut Gen.Stack.peekIdx
+  by_cases h1 : n ≥ (s.length : Int)
+  · simp [h1]
+  · by_cases h2 : n < 0
+    · have : ((s.length : Int) - 1 - n < 0 ∨ (s.length : Int) - 1 - n ≥ s.length) := by omega
+      simp [h1, h2, this]
+    · have : ¬ ((s.length : Int) - 1 - n < 0 ∨ (s.length : Int) - 1 - n ≥ s.length) := by omega
+      have e : ((s.length : Int) - 1 - n).toNat = s.length - 1 - n.toNat := by omega
+      simp only [h1, h2, this, decide_false, if_false, e]
+      simp
+
+theorem pop_def (s : S α) :
+    pop s = match peek s 0 with
+      | .opt (some v) => (s.take (s.length - 1), some v)
+      | _ => (s, none) := by
+  unfold pop Gen.Stack.popPeeks Gen.Stack.popLen
+  have e : ((s.length : Int) - 1).toNat = s.length - 1 := by omega
+  rw [e]
+  rfl
+
+theorem each_def (s : S α) (k : Nat) : each s k = walkDown s (s.length - 1) (min s.length (k + 1)) := by
+  unfold each Gen.Stack.eachStart
+  have e : ((s.length : Int) - 1).toNat = s.length - 1 := by omega
+  rw [e]
+
+theorem slice_def (s : S α) : slice s = walkDown s (s.length - 1) s.length := by
+  unfold slice Gen.Stack.sliceEmpty Gen.Stack.sliceStart
+  have e : ((s.length : Int) - 1).toNat = s.length - 1 := by omega
+  by_cases h : s.length = 0
+  · have h' : (s.length : Int) = 0 := by omega
+    simp [h, walkDown]
+  · have h' : ¬ (s.length : Int) = 0 := by omega
+    simp only [h', decide_false, e]
+    simp
+
+theorem isEmptyTest_eq (n : Nat) : Gen.Stack.isEmptyTest n = (n == 0) := by
+  unfold Gen.Stack.isEmptyTest; by_cases h : n = 0 <;> simp [h]
+end facts
+
 theorem walkDown_append (l r : List α) : ∀ (c i : Nat), c ≤ i + 1 → i < l.length →
     walkDown (l ++ r) i c = walkDown l i c := by
   intro c
@@ -51,20 +111,20 @@ theorem walkDown_eq (s : List α) (c : Nat) (hc : c ≤ s.length) :
   simpa using this
 
 theorem each_abs (s : List α) (k : Nat) : each s k = s.reverse.take (k + 1) := by
-  unfold each
+  rw [each_def]
   rw [walkDown_eq s _ (Nat.min_le_left _ _)]
   rw [List.take_eq_take_iff]
   simp only [List.length_reverse]
   omega
 
 theorem slice_abs (s : List α) : slice s = s.reverse := by
-  unfold slice
+  rw [slice_def]
   rw [walkDown_eq s _ (Nat.le_refl _)]
   simp [List.take_of_length_le]
 
 theorem peek_abs (s : List α) (n : Int) :
     peek s n = if n < 0 then .panicIndex else .opt s.reverse[n.toNat]? := by
-  unfold peek
+  rw [peek_def]
   by_cases h1 : n ≥ (s.length : Int)
   · have : ¬ n < 0 := by omega
     simp only [h1, if_true, this, if_false]
@@ -83,11 +143,11 @@ theorem pop_abs (s : List α) : pop s = ((s.reverse.tail).reverse, s.reverse.hea
   · rfl
   · have hp : peek (l ++ [b]) 0 = .opt (some b) := by
       rw [peek_abs]; simp
-    simp [pop, hp]
+    simp [pop_def, hp]
 
 theorem top_abs (s : List α) : top s = s.reverse.headD default := by
   rcases List.eq_nil_or_concat s with rfl | ⟨l, b, rfl⟩
   · rfl
-  · simp [top, List.getD_eq_getElem?_getD]
+  · simp [top_def, List.getD_eq_getElem?_getD]
 
 end MdsVerif.Proofs.Stack
